@@ -3,7 +3,7 @@ CONSTANTS
   MaxCC = 2
   MaxRev = 2
   ResVals = {1, 2}
-  Obs = {"o1", "o2"}
+  Obs = {"o1"}
   Variant = "code"
 INVARIANT LockDiscipline
 INVARIANT AtRestLatest
